@@ -62,7 +62,7 @@ THEOREMS = [
     "Lena.C04.split_compute_fresh",
     "Lena.C04.split_hist_fresh",
     # sentence 2, purpose clause: downstream in-place updates change no later result
-    "Lena.C04.accOps_tidy'",
+    "Lena.C04.accOps_tidy_instance",
     "Lena.C04.downstream_updates_harmless",
     "Lena.C04.downstream_updates_harmless_gen",
 ]
